@@ -72,14 +72,30 @@ Theorem C10_writes_confined :
 Proof. exact writes_confined. Qed.
 Print Assumptions C10_writes_confined.
 
-(* mutable_disjoint, partial: two tables serve the same object only if it is the class-level default of neutron *)
+(* mutable_disjoint, partial: the object a table serves for (atom, name) and the objects hanging below it (the
+   sftable array of an Xray object, magnetic_ff entries, activation records) are shared with another table only
+   if the served object is the class-level default of neutron *)
 Theorem C10_mutable_disjoint_partial :
   forall g t X Y a n o p, In g all_groups -> InvG10 g t ->
     In a read_atoms -> In n (names_of_group g) -> X <> Y ->
-    served_obj g t X a n = Some o -> served_obj g t Y a n = Some p -> obj_eqb o p = true ->
-    is_shared o = true /\ n = "neutron".
+    In o (served_objs g t X a n) -> In p (served_objs g t Y a n) -> obj_eqb o p = true ->
+    serves_default g t X a n = true /\ n = "neutron".
 Proof. exact mutable_disjoint_partial. Qed.
 Print Assumptions C10_mutable_disjoint_partial.
+
+Theorem C10_tracked_subobjects :
+  subs (OCache P1 E1 (nid "xray")) = [OSub P1 E1 (nid "xray")]
+  /\ subs (OInst P1 E1 (nid "magnetic_ff")) = [OSub P1 E1 (nid "magnetic_ff")]
+  /\ subs (OInst P1 I11 (nid "neutron_activation")) = [OSub P1 I11 (nid "neutron_activation")].
+Proof. exact tracked_subobjects. Qed.
+Print Assumptions C10_tracked_subobjects.
+
+Theorem C10_xray_mutation_confined :
+  run init_state [Read Pub E1 "xray"; New P1; Init "xsf.init" P1; New P2; Mut P1 E1 "xray"; Read Pub E1 "xray";
+                  Read Pub XE1 "xray"; Read P2 E1 "xray"; Read P1 E1 "xray"; Read P1 I11 "xray"; Read P1 XE1 "xray"]
+  = [OSame; OOk; OOk; OOk; OOk; OSame; OSame; OSame; OUser; OUser; OSame].
+Proof. exact xray_mutation_confined. Qed.
+Print Assumptions C10_xray_mutation_confined.
 
 (* ... and for that object the full statement is false (known finding C10:neutron-default-object-shared) *)
 Theorem C10_mutable_disjoint_refuted :
